@@ -42,7 +42,7 @@ func checkC09(c *Ctx) error {
 		"grammars: reference-LALR(1) grammars (structured / random) with @error productions added at rule starts, middles, ends and inside lists (no @list / *! so that every consumed symbol is an action argument); inputs: every string over T ∪ {ERROR token} up to a length bound, plus sentences, near-misses, truncations and random strings with bursts of garbage and ERROR tokens up to 40 tokens (these with full event recording). Oracles: termination decided on logical state (configuration repeat, runaway reads) or CPU budget; no silent acceptance (Earley on the grammar without error productions); blame = first token at which the input stops being a prefix of a sentence of G_ext (Earley, @error as a terminal no input token matches); when parse() is true the yield of the final tree (tokens and Error leaves) must be a sentence of G_ext, tokens in input order, input tokens missing only where an Error leaf stands. Non-trivial: non-sentences whose first error is not at token 1, and inputs on which an Error was delivered; distinct by grammar-hash+input.")
 	c.Ev.Assumptions = []string{
 		"actions never call recoverLookahead (the statement does not cover it)",
-		"@error appears only as a plain term (no ?, *, @list on it)",
+		"in a third of the generated grammars @error also appears as @error?, @error*, @error+ (lox does not accept it inside @list); an Error delivered inside such a list counts as delivered, the zero Error of an empty @error? does not",
 		"reference: Earley recogniser with unproductive-symbol trimming for viable prefixes",
 	}
 	nBatches := c.N(4, 50)
@@ -92,8 +92,11 @@ func drawErrCase(d *caseDrawer, r *rng.R) *PCase {
 	for try := 0; try < 4000; try++ {
 		var g *gram.Grammar
 		origin := ""
-		kind := r.Intn(5)
+		kind := r.Intn(6)
 		switch kind {
+		case 5:
+			g = specgen.ErrorSugarRecoveryGrammar(r)
+			origin = "error-under-sugar-popped-by-a-recovery"
 		case 4:
 			g = specgen.ErrorNestedGrammar(r)
 			origin = "nested-error-productions"
@@ -110,9 +113,14 @@ func drawErrCase(d *caseDrawer, r *rng.R) *PCase {
 			origin = "structured"
 		}
 		stripLists(g)
-		if kind != 1 && kind != 4 {
-			specgen.AddErrors(r, g)
-			origin += "+error"
+		if kind != 1 && kind != 4 && kind != 5 {
+			if r.Chance(1, 3) {
+				specgen.AddErrorsUnderSugar(r, g)
+				origin += "+error-under-sugar"
+			} else {
+				specgen.AddErrors(r, g)
+				origin += "+error"
+			}
 		}
 		d.mu.Lock()
 		d.drawn++
